@@ -7,12 +7,168 @@ from . import common as C
 from . import net as N
 from .netcommon import Ctx, write, quiet_after
 
+BAD_OPTSETS = {
+    "bad-blksize7": (("blksize", 7),), "bad-blksize65465": (("blksize", 65465), ("tsize", 0)), "bad-timeout0": (("timeout", 0),),
+    "bad-window0": (("windowsize", 0), ("blksize", 512)), "bad-window65536": (("windowsize", 65536),),
+}
 OPTSETS = {
     "none": (),
     "blksize": (("blksize", 1024),),
     "tsize": (("tsize", 0),),
     "all": (("blksize", 600), ("timeout", 2), ("tsize", 0), ("windowsize", 3)),
 }
+
+
+def run_config(v, ctx, tftpd, tier, combo, rng):
+    (ro, ow, keep, single, dist) = combo
+    evaluations = 0
+    distinct = set()
+    samples = []
+    outcomes = {}
+    sb = ctx.sandbox("c06", distinct=dist)
+    cfgname = f"ro={int(ro)},ow={int(ow)},keep={int(keep)},single={int(single)},distinct={int(dist)}"
+    # model of both directories: relative name -> content
+    send_files, recv_files = {}, {}
+    if not dist:
+        recv_files = send_files
+    def put(d, model, name, content):
+        write(os.path.join(sb[d], name), content)
+        model[name] = content
+    put("srv", send_files, "exist_short.bin", N.keyed_content("s-short", 300))
+    put("srv", send_files, "exist_long.bin", N.keyed_content("s-long", 5000))
+    put("srv", send_files, "sub/in_sub.bin", N.keyed_content("s-sub", 700))
+    if dist:
+        put("rcv", recv_files, "exist_short.bin", N.keyed_content("r-short", 200))
+        put("rcv", recv_files, "exist_long.bin", N.keyed_content("r-long", 4000))
+        put("rcv", recv_files, "sub/in_sub.bin", N.keyed_content("r-sub", 900))
+        put("rcv", recv_files, "only_rcv.bin", N.keyed_content("r-only", 100))
+    write(os.path.join(sb["outside"], "canary.txt"), b"outside canary")
+    targets = ["missing1.bin", "missing2.bin", "exist_short.bin", "exist_long.bin", "sub/in_sub.bin", "sub/missing_in_sub.bin", "only_rcv.bin"]
+    reqs = [(kind, t, o) for kind in ("RRQ", "WRQ") for t in targets for o in OPTSETS]
+    # requests that must be refused whatever their options say: also with an out-of-range option value
+    bad = [(kind, t, o) for kind in ("RRQ", "WRQ") for t in targets for o in BAD_OPTSETS]
+    rng.shuffle(bad)
+    reqs += bad[:20]
+    rng.shuffle(reqs)
+    if tier != "thorough":
+        reqs = reqs[:56]
+    srv = N.Server(tftpd, sb["srv"], single=single, read_only=ro, overwrite=ow, keep=keep,
+                   send_dir=sb["srv"] if dist else None, recv_dir=sb["rcv"] if dist else None, logdir=sb["logs"], shuffle=rng)
+    pool = [N._sock(timeout=2.0) for _ in range(3)]
+    with srv:
+        for seqno, (kind, target, oname) in enumerate(reqs):
+            evaluations += 1
+            opts = OPTSETS[oname] if oname in OPTSETS else BAD_OPTSETS[oname]
+            is_bad = oname in BAD_OPTSETS
+            before = N.snapshot(sb["root"])
+            replay = {"engine": "net", "config": cfgname, "request": [kind, target, oname], "sequence_so_far": reqs[:seqno + 1], "server_args": srv.args}
+            # two thirds of the requests come from a small pool of long-lived client endpoints (a client that issues
+            # several requests from one socket), the rest from fresh ones
+            own_socket = rng.random() < 0.34
+            if own_socket:
+                s = N._sock(timeout=2.0)
+            else:
+                s = pool[rng.randrange(len(pool))]
+                s.settimeout(0.05)
+                try:
+                    while True:
+                        s.recvfrom(70000)   # flush leftovers of the previous use
+                except OSError:
+                    pass
+                s.settimeout(2.0)
+            replay["client_endpoint"] = "fresh" if own_socket else f"reused {s.getsockname()[1]}"
+            try:
+                if kind == "RRQ":
+                    state = "existing" if target in send_files else "missing"
+                    tr = N.download(srv.addr, target, opts, sock=s)
+                    if state == "missing" and tr.first and tr.first[0] is None:
+                        s.settimeout(3.0)
+                        tr = N.download(srv.addr, target, opts, sock=s)
+                    if state == "missing":
+                        expect = "ERROR1"
+                        if not tr.error or tr.error[0] != 1:
+                            v.violation(f"C06/rrq-missing/reply", f"{cfgname}: RRQ {target} (missing) answered {tr.first} instead of ERROR 1", replay)
+                        elif tr.error[2] != srv.addr:
+                            v.violation("C06/refusal-port", f"{cfgname}: ERROR for missing file came from {tr.error[2]}, not the listening port {srv.port}", replay)
+                    elif is_bad:
+                        expect = "unspecified(bad option)"
+                    else:
+                        expect = "served"
+                        if not tr.completed or bytes(tr.data) != send_files[target]:
+                            v.violation("C06/rrq-existing", f"{cfgname}: RRQ {target} not served correctly: first={tr.first} completed={tr.completed} note={tr.note}", replay)
+                    extra = quiet_after(s, 0.05) if tr.error else []
+                    if extra:
+                        v.violation("C06/refusal-starts-transfer", f"{cfgname}: after refusing RRQ {target} more datagrams arrived: {extra[:3]}", replay)
+                    after = N.snapshot(sb["root"])
+                    diff = N.snap_diff(before, after)
+                    if diff:
+                        v.violation("C06/rrq-fs-effect", f"{cfgname}: RRQ {target} changed the filesystem: {diff[:3]}", replay)
+                else:
+                    newc = N.keyed_content(f"up-{cfgname}-{seqno}", rng.choice([0, 1, 150, 512, 2600, 6000]))
+                    state = "existing" if target in recv_files else "missing"
+                    if state == "existing":
+                        state += "-longer" if len(recv_files[target]) > len(newc) else "-shorter-or-equal"
+                    if ro:
+                        expect = "ERROR2"
+                    elif target in recv_files and not ow:
+                        expect = "ERROR6"
+                    elif is_bad:
+                        expect = "unspecified(bad option)"
+                    else:
+                        expect = "accepted"
+                    o2 = tuple((k, (len(newc) if k == "tsize" else val)) for k, val in opts)
+                    tr = N.upload(srv.addr, target, newc, o2, sock=s)
+                    if expect.startswith("ERROR") and tr.first and tr.first[0] is None:
+                        # a missing refusal is only believed after a second, patient request (loaded machine)
+                        s.settimeout(3.0)
+                        tr = N.upload(srv.addr, target, newc, o2, sock=s)
+                    if expect.startswith("ERROR"):
+                        code = int(expect[-1])
+                        if not tr.error or tr.error[0] != code:
+                            v.violation(f"C06/wrq-refusal/{expect}", f"{cfgname}: WRQ {target} ({state}) answered {tr.first} instead of ERROR {code}", replay)
+                        elif tr.error[2] != srv.addr:
+                            v.violation("C06/refusal-port", f"{cfgname}: refusal came from {tr.error[2]}, not the listening port {srv.port}", replay)
+                        extra = quiet_after(s, 0.05)
+                        if extra:
+                            v.violation("C06/refusal-starts-transfer", f"{cfgname}: after refusing WRQ {target} more datagrams arrived: {extra[:3]}", replay)
+                        after = N.snapshot(sb["root"])
+                        diff = N.snap_diff(before, after)
+                        if diff:
+                            v.violation("C06/refusal-fs-effect", f"{cfgname}: refused WRQ {target} changed the filesystem: {diff[:3]}", replay)
+                    elif expect.startswith("unspecified"):
+                        # the statement does not say what happens to an acceptable request with an un-honourable option;
+                        # whatever happened, follow the filesystem so the model stays in step
+                        path = os.path.join(sb["rcv"], target)
+                        if tr.completed and os.path.exists(path):
+                            recv_files[target] = open(path, "rb").read()
+                        elif not os.path.exists(path):
+                            recv_files.pop(target, None)
+                    else:
+                        if not tr.completed:
+                            v.violation("C06/wrq-accept", f"{cfgname}: WRQ {target} ({state}) should be accepted but: first={tr.first} error={tr.error} note={tr.note}", replay)
+                        else:
+                            recv_files[target] = newc
+                            rel = os.path.relpath(os.path.join(sb["rcv"], target), sb["root"])
+                            after = N.snapshot(sb["root"])
+                            diff = N.snap_diff(before, after)
+                            on_disk = open(os.path.join(sb["rcv"], target), "rb").read() if os.path.exists(os.path.join(sb["rcv"], target)) else None
+                            if on_disk != newc:
+                                v.violation("C06/overwrite-content" if state.startswith("existing") else "C06/upload-content",
+                                            f"{cfgname}: after completed upload of {target} ({state}) the file holds {None if on_disk is None else len(on_disk)} bytes, expected the {len(newc)} new bytes (old tail must not survive)", replay)
+                            if [d for d in diff if d[0] != rel]:
+                                v.violation("C06/upload-side-effect", f"{cfgname}: upload of {target} changed other paths: {[d for d in diff if d[0] != rel][:3]}", replay)
+                key = (cfgname, kind, state, oname, expect)
+                distinct.add(key)
+                outcomes[expect] = outcomes.get(expect, 0) + 1
+                if len(samples) < 4 and expect != "served":
+                    samples.append({"config": cfgname, "request": [kind, target, oname], "target_state": state, "expected": expect, "first_reply": str(tr.first)[:120]})
+            finally:
+                if own_socket:
+                    s.close()
+            if not srv.alive():
+                v.note_inconclusive(f"{cfgname}: server exited (status {srv.exit_status()}) during the sequence: {srv.log_tail(300)}")
+                break
+    return evaluations, distinct, samples, outcomes
 
 
 def run(tier):
@@ -28,126 +184,17 @@ def run(tier):
     distinct = set()
     samples = []
     outcomes = {}
-    for (ro, ow, keep, single, dist) in combos:
-        sb = ctx.sandbox("c06", distinct=dist)
-        cfgname = f"ro={int(ro)},ow={int(ow)},keep={int(keep)},single={int(single)},distinct={int(dist)}"
-        # model of both directories: relative name -> content
-        send_files, recv_files = {}, {}
-        if not dist:
-            recv_files = send_files
-        def put(d, model, name, content):
-            write(os.path.join(sb[d], name), content)
-            model[name] = content
-        put("srv", send_files, "exist_short.bin", N.keyed_content("s-short", 300))
-        put("srv", send_files, "exist_long.bin", N.keyed_content("s-long", 5000))
-        put("srv", send_files, "sub/in_sub.bin", N.keyed_content("s-sub", 700))
-        if dist:
-            put("rcv", recv_files, "exist_short.bin", N.keyed_content("r-short", 200))
-            put("rcv", recv_files, "exist_long.bin", N.keyed_content("r-long", 4000))
-            put("rcv", recv_files, "sub/in_sub.bin", N.keyed_content("r-sub", 900))
-            put("rcv", recv_files, "only_rcv.bin", N.keyed_content("r-only", 100))
-        write(os.path.join(sb["outside"], "canary.txt"), b"outside canary")
-        targets = ["missing1.bin", "missing2.bin", "exist_short.bin", "exist_long.bin", "sub/in_sub.bin", "sub/missing_in_sub.bin", "only_rcv.bin"]
-        reqs = [(kind, t, o) for kind in ("RRQ", "WRQ") for t in targets for o in OPTSETS]
-        ctx.rng.shuffle(reqs)
-        if tier != "thorough":
-            reqs = reqs[:40]
-        srv = N.Server(tftpd, sb["srv"], single=single, read_only=ro, overwrite=ow, keep=keep,
-                       send_dir=sb["srv"] if dist else None, recv_dir=sb["rcv"] if dist else None, logdir=sb["logs"])
-        pool = [N._sock(timeout=2.0) for _ in range(3)]
-        with srv:
-            for seqno, (kind, target, oname) in enumerate(reqs):
-                evaluations += 1
-                opts = OPTSETS[oname]
-                before = N.snapshot(sb["root"])
-                replay = {"engine": "net", "config": cfgname, "request": [kind, target, oname], "sequence_so_far": reqs[:seqno + 1], "server_args": srv.args}
-                # two thirds of the requests come from a small pool of long-lived client endpoints (a client that issues
-                # several requests from one socket), the rest from fresh ones
-                own_socket = ctx.rng.random() < 0.34
-                if own_socket:
-                    s = N._sock(timeout=2.0)
-                else:
-                    s = pool[ctx.rng.randrange(len(pool))]
-                    s.settimeout(0.05)
-                    try:
-                        while True:
-                            s.recvfrom(70000)   # flush leftovers of the previous use
-                    except OSError:
-                        pass
-                    s.settimeout(2.0)
-                replay["client_endpoint"] = "fresh" if own_socket else f"reused {s.getsockname()[1]}"
-                try:
-                    if kind == "RRQ":
-                        state = "existing" if target in send_files else "missing"
-                        tr = N.download(srv.addr, target, opts, sock=s)
-                        if state == "missing":
-                            expect = "ERROR1"
-                            if not tr.error or tr.error[0] != 1:
-                                v.violation(f"C06/rrq-missing/reply", f"{cfgname}: RRQ {target} (missing) answered {tr.first} instead of ERROR 1", replay)
-                            elif tr.error[2] != srv.addr:
-                                v.violation("C06/refusal-port", f"{cfgname}: ERROR for missing file came from {tr.error[2]}, not the listening port {srv.port}", replay)
-                        else:
-                            expect = "served"
-                            if not tr.completed or bytes(tr.data) != send_files[target]:
-                                v.violation("C06/rrq-existing", f"{cfgname}: RRQ {target} not served correctly: first={tr.first} completed={tr.completed} note={tr.note}", replay)
-                        extra = quiet_after(s, 0.05) if tr.error else []
-                        if extra:
-                            v.violation("C06/refusal-starts-transfer", f"{cfgname}: after refusing RRQ {target} more datagrams arrived: {extra[:3]}", replay)
-                        after = N.snapshot(sb["root"])
-                        diff = N.snap_diff(before, after)
-                        if diff:
-                            v.violation("C06/rrq-fs-effect", f"{cfgname}: RRQ {target} changed the filesystem: {diff[:3]}", replay)
-                    else:
-                        newc = N.keyed_content(f"up-{cfgname}-{seqno}", ctx.rng.choice([0, 1, 150, 512, 2600, 6000]))
-                        state = "existing" if target in recv_files else "missing"
-                        if state == "existing":
-                            state += "-longer" if len(recv_files[target]) > len(newc) else "-shorter-or-equal"
-                        if ro:
-                            expect = "ERROR2"
-                        elif target in recv_files and not ow:
-                            expect = "ERROR6"
-                        else:
-                            expect = "accepted"
-                        o2 = tuple((k, (len(newc) if k == "tsize" else val)) for k, val in opts)
-                        tr = N.upload(srv.addr, target, newc, o2, sock=s)
-                        if expect.startswith("ERROR"):
-                            code = int(expect[-1])
-                            if not tr.error or tr.error[0] != code:
-                                v.violation(f"C06/wrq-refusal/{expect}", f"{cfgname}: WRQ {target} ({state}) answered {tr.first} instead of ERROR {code}", replay)
-                            elif tr.error[2] != srv.addr:
-                                v.violation("C06/refusal-port", f"{cfgname}: refusal came from {tr.error[2]}, not the listening port {srv.port}", replay)
-                            extra = quiet_after(s, 0.05)
-                            if extra:
-                                v.violation("C06/refusal-starts-transfer", f"{cfgname}: after refusing WRQ {target} more datagrams arrived: {extra[:3]}", replay)
-                            after = N.snapshot(sb["root"])
-                            diff = N.snap_diff(before, after)
-                            if diff:
-                                v.violation("C06/refusal-fs-effect", f"{cfgname}: refused WRQ {target} changed the filesystem: {diff[:3]}", replay)
-                        else:
-                            if not tr.completed:
-                                v.violation("C06/wrq-accept", f"{cfgname}: WRQ {target} ({state}) should be accepted but: first={tr.first} error={tr.error} note={tr.note}", replay)
-                            else:
-                                recv_files[target] = newc
-                                rel = os.path.relpath(os.path.join(sb["rcv"], target), sb["root"])
-                                after = N.snapshot(sb["root"])
-                                diff = N.snap_diff(before, after)
-                                on_disk = open(os.path.join(sb["rcv"], target), "rb").read() if os.path.exists(os.path.join(sb["rcv"], target)) else None
-                                if on_disk != newc:
-                                    v.violation("C06/overwrite-content" if state.startswith("existing") else "C06/upload-content",
-                                                f"{cfgname}: after completed upload of {target} ({state}) the file holds {None if on_disk is None else len(on_disk)} bytes, expected the {len(newc)} new bytes (old tail must not survive)", replay)
-                                if [d for d in diff if d[0] != rel]:
-                                    v.violation("C06/upload-side-effect", f"{cfgname}: upload of {target} changed other paths: {[d for d in diff if d[0] != rel][:3]}", replay)
-                    key = (cfgname, kind, state, oname, expect)
-                    distinct.add(key)
-                    outcomes[expect] = outcomes.get(expect, 0) + 1
-                    if len(samples) < 4 and expect != "served":
-                        samples.append({"config": cfgname, "request": [kind, target, oname], "target_state": state, "expected": expect, "first_reply": str(tr.first)[:120]})
-                finally:
-                    if own_socket:
-                        s.close()
-                if not srv.alive():
-                    v.note_inconclusive(f"{cfgname}: server exited (status {srv.exit_status()}) during the sequence: {srv.log_tail(300)}")
-                    break
+    import concurrent.futures
+    import random
+    with concurrent.futures.ThreadPoolExecutor(max_workers=6) as ex:
+        futs = [ex.submit(run_config, v, ctx, tftpd, tier, combo, random.Random(C.seed() * 104729 + i)) for i, combo in enumerate(combos)]
+        for f in futs:
+            e, d, sm, oc = f.result()
+            evaluations += e
+            distinct |= d
+            samples += sm[:1]
+            for k, n in oc.items():
+                outcomes[k] = outcomes.get(k, 0) + n
     cov = {"evaluations": evaluations, "distinct_nontrivial": len(distinct),
            "rule": "requests to real tftpd servers (one per configuration, kept alive for the whole seeded request order so earlier uploads are part of the history); oracle = decision table of the property statement applied to a model of both directories; whole-sandbox snapshot (type,size,sha1) diffed around every request; refusals must come from the listening port and be followed by silence. distinct = distinct (configuration, request kind, target state, option set, expected outcome).",
            "samples": samples, "exhaustive": False, "configurations": len(combos), "expected_outcomes_seen": outcomes}
